@@ -5826,6 +5826,17 @@ class PyCdlib:
             if mac:
                 efi = True
 
+        # The GPT that goes with EFI (and Mac) support describes the EFI (and
+        # Mac) boot images, which are the El Torito entries for platform 0xef.
+        num_efi_entries = 0
+        for sec in self.eltorito_boot_catalog.sections:
+            if sec.platform_id == 0xef:
+                num_efi_entries += len(sec.section_entries)
+        if efi and num_efi_entries < 1:
+            raise pycdlibexception.PyCdlibInvalidInput('EFI isohybrid support needs an El Torito entry for the EFI platform (add_eltorito with efi=True)')
+        if mac and num_efi_entries < 2:
+            raise pycdlibexception.PyCdlibInvalidInput('Mac isohybrid support needs two El Torito entries for the EFI platform (add_eltorito with efi=True)')
+
         if part_type is None:
             part_type = 0x17
             if mac or efi:
